@@ -73,7 +73,9 @@ impl<'a> Case<'a> {
             (Some(_), 3) | (Some(_), 5) => "src/two",
             (Some(_), _) => "src",
             (None, _) => {
-                if f == 4 && self.c["sub"] == json!(1) {
+                if self.root() && f != 1 {
+                    ""                       // ROOT layout: every module sits at the very root of the resource tree
+                } else if f == 4 && self.c["sub"] == json!(1) {
                     "src/sub"
                 } else {
                     "src"
@@ -98,8 +100,21 @@ impl<'a> Case<'a> {
             _ => format!("{}.{}", self.stem(f), self.ext()),
         }
     }
+    /// ROOT layout (`root: 1`): no project directory -- the entry is `src/main.lua` and the modules are `a.lua`, `b.lua` ...
+    /// directly at the root of the resources, so that a module has NO parent directory (a file is then located as
+    /// `a.lua` from `src/` and as `./a.lua` from a sibling)
+    fn root(&self) -> bool {
+        self.c["root"] == json!(1) && self.twin().is_none()
+    }
+    fn prefix(&self) -> &'static str {
+        if self.root() { "" } else { "proj/" }
+    }
     fn path(&self, f: usize) -> String {
-        format!("proj/{}/{}", self.dir(f), self.file_name(f))
+        if self.dir(f).is_empty() {
+            format!("{}{}", self.prefix(), self.file_name(f))
+        } else {
+            format!("{}{}/{}", self.prefix(), self.dir(f), self.file_name(f))
+        }
     }
     /// the literal require string for target t written in file f (spelling sp); by construction every string
     /// denotes the same file wherever it is used (all requirers of one directory use that directory's spellings)
@@ -118,10 +133,19 @@ impl<'a> Case<'a> {
         let data = self.kind(t) == "data";
         let from_sub = self.dir(f) == "src/sub";
         let to_sub = self.dir(t) == "src/sub";
-        let rel = match (from_sub, to_sub) {
-            (false, false) | (true, true) => "./".to_string(),
-            (false, true) => "./sub/".to_string(),
-            (true, false) => "../".to_string(),
+        let rel = if self.root() {
+            match (self.dir(f).is_empty(), self.dir(t).is_empty()) {
+                (true, true) => "./".to_string(),
+                (false, true) => "../".to_string(),
+                (true, false) => "./src/".to_string(),
+                (false, false) => "./".to_string(),
+            }
+        } else {
+            match (from_sub, to_sub) {
+                (false, false) | (true, true) => "./".to_string(),
+                (false, true) => "./sub/".to_string(),
+                (true, false) => "../".to_string(),
+            }
         };
         if self.excluded(t) || self.kind(t) == "missing" {
             return format!("{}{}", rel, stem); // one spelling only: the exclusion pattern / the error text names it
@@ -132,7 +156,7 @@ impl<'a> Case<'a> {
             1 => format!("{}{}", rel, full),
             2 => format!("{}x/../{}", rel, name),
             _ => {
-                if from_sub == to_sub && !from_sub {
+                if from_sub == to_sub && !from_sub && !self.root() {
                     format!("../src/{}", name)
                 } else {
                     format!("{}y/./../{}", rel, full)
@@ -489,6 +513,12 @@ pub fn main(args: &[String]) -> i32 {
                 if c["sub"] == json!(1) {
                     excludes.push(case.spelling(4, f, 0));
                 }
+                if case.root() {
+                    // `excludes` patterns are matched against the require STRING: the spelling used by the sibling modules too
+                    if let Some(g) = (2..=n).find(|g| *g != f) {
+                        excludes.push(case.spelling(g, f, 0));
+                    }
+                }
             }
             let text = match case.kind(f) {
                 "missing" => continue,
@@ -504,7 +534,7 @@ pub fn main(args: &[String]) -> i32 {
         excludes.dedup();
         // the separate module served by the run-time require for computed arguments
         let dyn_text = "LOADS.dyn = (LOADS.dyn or 0) + 1\nreturn {name = \"dyn\"}\n";
-        resources.write("proj/src/dyn.lua", dyn_text).expect("write");
+        resources.write(format!("{}src/dyn.lua", case.prefix()), dyn_text).expect("write");
         let cfg_text = config_text(&case, &excludes);
         let config: Configuration = match json5::from_str(&cfg_text) {
             Ok(x) => x,
@@ -518,14 +548,15 @@ pub fn main(args: &[String]) -> i32 {
         let (tx, rx) = mpsc::channel();
         let res2 = resources.clone();
         let cfg2 = cfg_text.clone();
+        let rooted = case.root();
         let t0 = Instant::now();
         std::thread::Builder::new()
             .stack_size(256 * 1024 * 1024)
             .spawn(move || {
                 let r = guarded(|| {
                     let config: Configuration = json5::from_str(&cfg2).expect("configuration parsed above");
-                    let config = config.with_location("proj");
-                    darklua_core::process(&res2, Options::new(Path::new("proj/src/main.lua")).with_output("out/out.lua").with_configuration(config))
+                    let config = config.with_location(if rooted { "" } else { "proj" });
+                    darklua_core::process(&res2, Options::new(Path::new(if rooted { "src/main.lua" } else { "proj/src/main.lua" })).with_output("out/out.lua").with_configuration(config))
                         .map(|tree| tree.collect_errors().iter().map(|e| e.to_string()).collect::<Vec<String>>())
                         .map_err(|e| e.to_string())
                 });
@@ -558,8 +589,14 @@ pub fn main(args: &[String]) -> i32 {
         // which files does the message name: the path of an existing file, the requested string of a missing one
         let mut named = Vec::new();
         for f in 1..=n {
-            let needle = if case.kind(f) == "missing" { format!("{}/{}", case.dir(f), case.stem(f)) } else { format!("{}/{}", case.dir(f), case.file_name(f)) };
-            if text.contains(&needle) {
+            let last = if case.kind(f) == "missing" { case.stem(f).to_string() } else { case.file_name(f) };
+            let hit = if case.dir(f).is_empty() {
+                // ROOT layout: the file has no directory; it is named as `a.lua`, `./a.lua` or `../a.lua`
+                text.contains(&format!("`{}", last)) || text.contains(&format!("/{}", last))
+            } else {
+                text.contains(&format!("{}/{}", case.dir(f), last))
+            };
+            if hit {
                 named.push(f);
             }
         }
